@@ -20,6 +20,8 @@ LEVEL_TEXT = ('Decides from the source, for every model class at once: each clas
               'reinterpret plain strings the encoder emitted unchanged; asjson marks a node as seen before descending and unmarks '
               'it on every exit; __getstate__/__setstate__ pairs use the same keys; every class that can occur in the emitted model '
               'source is exported by tatsu.peg. Equality of the reloaded parser on concrete inputs is not decided.')
+TECHNIQUE += '; registry-overwrite clause; interpretation of the Config pickle state round trip on all-falsy settings; read-back (ast.literal_eval) of the folded repr-as-source form for every container shape'
+LEVEL_TEXT += ' Added clauses: falsy settings survive __getstate__/__setstate__; one-element tuples, nested containers and strings print as literals that evaluate to themselves; silent overwrite of a registry entry by a same-named class is recorded as a known finding.'
 LEVEL_NOTE = 'Trusted: dataclass semantics (init=False fields are not constructor parameters); BaseNode.__repr__ omits None values.'
 EXPLANATION = ('Static analysis of /repo sources, TatSu not imported. Field tables are computed from the class table and the '
                'dataclass field declarations through the static MRO.')
